@@ -35,7 +35,7 @@ GRID = dict(start="2021-01-01T00:00", end="2021-01-02T00:00", freq="6h", mtu="h"
 def portfolio(name):
     g = Grid.from_json(GRID)
     r = S.r
-    base = [dict(type="SimpleContract", name="mkt", nodes=["n1"], price="p", min_cap=-5.0, max_cap=5.0),
+    base = [dict(type="SimpleContract", name="mkt", nodes=["n1"], price="p", min_cap=-5.15, max_cap=5.15),
             dict(type="SimpleContract", name="sup", nodes=["n1"], price="q", min_cap=0.0, max_cap=3.0, extra_costs=0.2),
             dict(type="Storage", name="sto", nodes=["n1"], size=8.0, cap_in=1.0, cap_out=2.0, start_level=1.0, end_level=1.0, eff_in=0.9)]
     mk2 = dict(type="SimpleContract", name="mk2", nodes=["n2"], price="q", min_cap=-4.0, max_cap=4.0)
@@ -47,7 +47,7 @@ def portfolio(name):
         return [base[0], dict(type="MultiCommodityContract", name="mc", nodes=["n1", "n2"], price="ec", min_cap=0.0, max_cap=4.0, factors_commodities=[1.0, 0.5]), mk2, base[2]]
     if name == "plantfuel":
         return [dict(type="SimpleContract", name="gas", nodes=["nf"], price="ec", min_cap=0.0, max_cap=50.0),
-                dict(type="Plant", name="pl", nodes=["n1", "nf"], min_cap=1.0, max_cap=6.0, fuel_efficiency=0.5, start_costs=2.0, start_fuel=1.0,
+                dict(type="Plant", name="pl", nodes=["n1", "nf"], min_cap=1.1, max_cap=5.3, fuel_efficiency=0.45, start_costs=2.0, start_fuel=1.3,
                      min_runtime=12, time_already_off=10), base[0], base[2]]
     if name == "orderbook":
         ob = dict(type="OrderBook", name="ob", nodes=["n1"], orders=dict(start=["2021-01-01T06:00", "2021-01-01T00:00", "2020-12-31T00:00"],
